@@ -3,8 +3,15 @@
 // set-of-free-blocks statement of C06. Prints the first failing sequence. NOT a proof step.
 use feoxdb::storage::free_space::FreeSpaceManager;
 
-const DATA: u64 = 10; // data blocks 16..26
-const N: u64 = 16 + DATA;
+// Two device shapes: a small one searched densely (data blocks 16..26) and a wide one searched with a
+// sparse operation alphabet (400 data blocks: percentages, ties and "more than 99% in one run" states
+// only exist on devices of more than 100 blocks).
+use std::sync::atomic::{AtomicU64, Ordering};
+static N_BLOCKS: AtomicU64 = AtomicU64::new(26);
+#[allow(non_snake_case)]
+fn N() -> u64 {
+    N_BLOCKS.load(Ordering::Relaxed)
+}
 
 #[derive(Clone)]
 struct Model {
@@ -13,8 +20,8 @@ struct Model {
 
 impl Model {
     fn new() -> Self {
-        let mut free = vec![false; N as usize];
-        for b in 16..N {
+        let mut free = vec![false; N() as usize];
+        for b in 16..N() {
             free[b as usize] = true;
         }
         Model { free }
@@ -22,10 +29,10 @@ impl Model {
     fn runs(&self) -> Vec<(u64, u64)> {
         let mut out = Vec::new();
         let mut b = 16;
-        while b < N {
+        while b < N() {
             if self.free[b as usize] {
                 let s = b;
-                while b < N && self.free[b as usize] {
+                while b < N() && self.free[b as usize] {
                     b += 1;
                 }
                 out.push((s, b - s));
@@ -71,7 +78,7 @@ fn apply(fs: &mut FreeSpaceManager, m: &mut Model, op: Op) -> Result<(), String>
                         return Err("allocation of 0 blocks succeeded".into());
                     }
                     for b in s..s + n {
-                        if b < 16 || b >= N || !m.free[b as usize] {
+                        if b < 16 || b >= N() || !m.free[b as usize] {
                             return Err(format!("allocate({n}) returned [{s},{}) which is not inside the free set (block {b})", s + n));
                         }
                     }
@@ -87,7 +94,7 @@ fn apply(fs: &mut FreeSpaceManager, m: &mut Model, op: Op) -> Result<(), String>
             }
         }
         Op::Release(s, c) => {
-            let valid = s >= 16 && c >= 1 && s + c <= N && (s..s + c).all(|b| !m.free[b as usize]);
+            let valid = s >= 16 && c >= 1 && s + c <= N() && (s..s + c).all(|b| !m.free[b as usize]);
             let before = (fs.get_total_free(), fs.get_free_chunks_count(), fs.get_largest_free_chunk());
             match fs.release_sectors(s, c) {
                 Ok(()) => {
@@ -115,7 +122,7 @@ fn apply(fs: &mut FreeSpaceManager, m: &mut Model, op: Op) -> Result<(), String>
 
 fn replay(seq: &[Op]) -> Result<(), (usize, String)> {
     let mut fs = FreeSpaceManager::new();
-    fs.initialize(N * 4096).map_err(|e| (0, format!("initialize failed: {e}")))?;
+    fs.initialize(N() * 4096).map_err(|e| (0, format!("initialize failed: {e}")))?;
     let mut m = Model::new();
     check(&fs, &m).map_err(|e| (0, e))?;
     for (i, op) in seq.iter().enumerate() {
@@ -126,24 +133,43 @@ fn replay(seq: &[Op]) -> Result<(), (usize, String)> {
 
 #[test]
 fn twin_search() {
+    let depth: usize = std::env::var("TWIN_DEPTH").ok().and_then(|d| d.parse().ok()).unwrap_or(4);
+    // small device, dense alphabet
+    N_BLOCKS.store(26, Ordering::Relaxed);
     let mut ops = Vec::new();
     for n in 0..=4u64 {
         ops.push(Op::Alloc(n));
     }
-    ops.push(Op::Alloc(DATA));
-    for s in 15..=N {
+    ops.push(Op::Alloc(10));
+    for s in 15..=N() {
         for c in 0..=3u64 {
             ops.push(Op::Release(s, c));
         }
     }
-    let depth: usize = std::env::var("TWIN_DEPTH").ok().and_then(|d| d.parse().ok()).unwrap_or(4);
+    search(&ops, depth);
+    // wide device, sparse alphabet
+    N_BLOCKS.store(416, Ordering::Relaxed);
+    let mut ops = Vec::new();
+    for n in [1u64, 5, 100, 399, 400] {
+        ops.push(Op::Alloc(n));
+    }
+    for s in [16u64, 17, 21, 22, 116, 411, 415] {
+        for c in [1u64, 5, 100] {
+            ops.push(Op::Release(s, c));
+        }
+    }
+    search(&ops, depth.min(4));
+    println!("TWIN-NO-COUNTEREXAMPLE depth={depth} (26-block device, dense; 416-block device, sparse alphabet, depth {})", depth.min(4));
+}
+
+fn search(ops: &[Op], depth: usize) {
     // iterative deepening, sequences enumerated in lexicographic order
     for d in 1..=depth {
         let mut idx = vec![0usize; d];
         loop {
             let seq: Vec<Op> = idx.iter().map(|i| ops[*i]).collect();
             if let Err((at, why)) = replay(&seq) {
-                println!("TWIN-COUNTEREXAMPLE device_blocks={} sequence={:?} fails_at_step={} reason={}", N, &seq[..=at.min(seq.len() - 1)], at, why);
+                println!("TWIN-COUNTEREXAMPLE device_blocks={} sequence={:?} fails_at_step={} reason={}", N(), &seq[..=at.min(seq.len() - 1)], at, why);
                 panic!("counterexample found");
             }
             let mut k = d;
@@ -167,5 +193,4 @@ fn twin_search() {
             }
         }
     }
-    println!("TWIN-NO-COUNTEREXAMPLE depth={depth}");
 }
